@@ -69,6 +69,12 @@ def norm_frame(j, cls="NestedFrame"):
 def mk_nf(ctx, s: Subject, labels=None, with_other=True, nest_name=IDENT_NEST, base_nan=False):
     rng = ctx.rng
     n = len(s.content["rows"])
+    index = None
+    if labels is None and rng.random() < 0.2:
+        # a genuine pd.RangeIndex that is not 0..n-1 (what iloc[k:] / [::2] leave on a default-indexed frame)
+        start, step = rng.randint(1, 4), rng.choice([1, 1, 2, 3])
+        index = pd.RangeIndex(start, start + n * step, step)
+        labels = list(index)
     labels = labels if labels is not None else gen.rand_labels(rng, n)
     d = {"id": np.arange(n, dtype=np.int64),
          "x": np.array([rng.randint(-4, 8) / 2.0 for _ in range(n)], dtype=np.float64)}
@@ -76,7 +82,7 @@ def mk_nf(ctx, s: Subject, labels=None, with_other=True, nest_name=IDENT_NEST, b
         for i in range(n):
             if rng.random() < 0.2:
                 d["x"][i] = float("nan")
-    nf = NestedFrame(d, index=pd.Index(labels))
+    nf = NestedFrame(d, index=index if index is not None else pd.Index(labels))
     nf[nest_name] = pd.Series(s.fresh_ext(), index=nf.index, name=nest_name)
     other = None
     if with_other:
@@ -424,7 +430,11 @@ def case_sort(ctx, s: Subject, nest_name=IDENT_NEST):
             nf2 = nf.sort_values(by_arg, **kw)
         # exact rows (NaN and null kept apart) of the result, read off its storage by the Lean abstraction
         exact["after"] = ctx.driver.call("abs", col=export.export_ext(nf2[nest_name].array))["model"]["col"]["rows"]
-        return frame_view(nf2)
+        v = frame_view(nf2)
+        for c in v["cols"]:
+            if c[0] == nest_name:   # the element view turns an int field with a null into floats: keep the exact cells
+                c[2]["rows"] = weak_rows(exact["after"])
+        return v
     real = call_real(run)
     keys = [[k, a] for k, a in zip(ks, asc_list)]
     ans = ctx.driver.call("frame.sort", frame=fj, nest=nest_name, keys=keys, naFirst=na_first)
